@@ -4,7 +4,7 @@ import json
 from . import harness
 
 CHECKS = {
-    'C07': dict(mod='c07', level='fault_enumeration',
+    'C07': dict(mod='c07', state_measure='(opcode at the fault point, fault kind, handler armed?, operand-stack depth (cap 6), frame depth (cap 4))', level='fault_enumeration',
                 rule=('scenario = program (generated any/ref family or repository test program) x compiler '
                       'config x device script; per scenario the fault-free run plus one run per tick boundary '
                       '(interrupt), per device call x {failure, missing operation, interrupt inside the call}, per '
@@ -14,7 +14,7 @@ CHECKS = {
                 assumptions=['interrupt = QvmCpu.signal_handler called by the scheduler (or signal.raise_signal); OS signal latency is not simulated',
                              'budget overruns are counted as inconclusive, not as violations, except after an unarmed interrupt',
                              'expected trap categories are taken from the property text and qvm/trap.py']),
-    'C02': dict(mod='c02', level='exploration',
+    'C02': dict(mod='c02', state_measure='(fault kind, last trap code, handler mode, operand excess at dispatch (cap 4), frame depth (cap 3)) of the reference replica', level='exploration',
                 rule=('scenario = program (constant-heavy profile: constant expressions over every operator / operand '
                       'type pair with boundary values in CONST, static bounds, PRINT items, conditions, FOR, SELECT; '
                       'generated any/ref programs; repository programs) x device script; replicas -O0..-O3 at each debug '
@@ -25,12 +25,12 @@ CHECKS = {
                       'plus one per distinct fault-free group'),
                 assumptions=['-O0 is the reference replica', 'interrupts at tick boundaries cannot be aligned across levels and are not used here',
                              'the enumerations named in the quantifier (all peephole windows, all boundary pairs) are sampled, not exhausted']),
-    'C08': dict(mod='c08', level='exploration',
+    'C08': dict(mod='c08', state_measure='(fault kind, last trap code, handler mode, operand excess at dispatch (cap 4), frame depth (cap 3)) of the reference replica', level='exploration',
                 rule=('as C02 with the replica axis {-g, no -g} at each of -O0..-O2; programs in which RESUME / RESUME NEXT / '
                       'ON ERROR RESUME NEXT actually executes are exempt for the no-g replica, which must then stop with '
                       'CANNOT_RESUME after a prefix of the -g history; sections 1-3 compared byte-wise as a static sanity check'),
                 assumptions=['whether a RESUME executed is observed by the tick wrapper (errres/errresn at pc, or a trap taken in RESUME NEXT mode)']),
-    'C03': dict(mod='c03', level='exploration',
+    'C03': dict(mod='c03', state_measure='(trap code, handler mode, operand excess at dispatch (cap 5), frame depth (cap 4)) over all trap events', level='exploration',
                 rule=('scenario = program x config x device script with rejected INPUT lines; fault-free run, one run per '
                       '(sampled) device call with a device failure, and 2-3-fault runs; monitors between all ticks: no '
                       'machine-level fault code, pc on an instruction start, declared cell types after every store and in '
@@ -40,7 +40,7 @@ CHECKS = {
                 assumptions=['declared cell types are derived by simqb from the routine symbol tables of the debug section',
                              'statement boundaries come from the debug map (CASE clause element records and the synthesised END SELECT of an empty CASE body are not boundaries)',
                              'the abstract interpretation named in the quantifier is not performed (different technique); the claim is the concrete-run monitor']),
-    'C20': dict(mod='c20', level='exploration',
+    'C20': dict(mod='c20', state_measure='(hash seed != 0, cwd kind, clock patched?, set of history outcomes)', level='exploration',
                 rule=('scenario = program x config; baseline = fresh interpreter (hash seed 0, cwd /verif, real clock, no '
                       'history) compiling it and running it twice; then one fresh interpreter per drawn environment: hash '
                       'seed, cwd, patched wall clock, and a history of 0-6 earlier operations in the same process '
@@ -50,7 +50,7 @@ CHECKS = {
                       'evaluations = interpreter processes; distinct_nontrivial = distinct (text, config, environment) digests'),
                 assumptions=['the debug section (gzip+pickle) is excluded, as the property says',
                              'two compilations interleaved on two threads are not simulated (no thread-safety claim)']),
-    'C18': dict(mod='c18', level='fault_enumeration',
+    'C18': dict(mod='c18', state_measure='(target types, placement, prompt present?, prompt separator, number of rejected lines, fault kinds)', level='fault_enumeration',
                 rule=('scenario = INPUT statement (1-4 targets: scalars / array elements / record fields of every builtin type; '
                       'prompt forms none, \"p\";, \"p\", and leading ;) placed at module level, in a GOSUB routine or in a SUB '
                       '(targets by reference) x response history (0-4 rejected lines of the classes wrong field count, '
@@ -60,7 +60,7 @@ CHECKS = {
                       'evaluations = simulated runs; distinct_nontrivial = distinct (text, config, responses, plan) digests'),
                 assumptions=['only response classes whose verdict the property statement makes unambiguous are generated (no 1E5 into INTEGER, no &H10, no quoted fields, no empty numeric field, no float text for integer targets)',
                              'values are read as typed PRINT operands of the tail, not as formatted text']),
-    'C12': dict(mod='c12', level='exploration',
+    'C12': dict(mod='c12', state_measure='(command, statement kind at pc, logical frame depth (cap 4), halted?)', level='exploration',
                 rule=('scenario = program (-g, -O0..-O2) x device script x history of 3-30 operator commands (step, next, '
                       'stepi, nexti, continue, break line/routine/address, delbr, read-only commands, garbage), padded with '
                       'delete-all + continue. The free run of the same module gives the per-tick trace (pc, innermost '
@@ -69,7 +69,7 @@ CHECKS = {
                       'digests that ran to the end; distinct states = (command, statement kind at pc, frame depth, halted?)'),
                 assumptions=['statement records and line numbers are read from the debug map by simqb\'s own reader (their soundness is C11)',
                              'a step that is stopped early by a user breakpoint is accepted']),
-    'C01': dict(mod='c01', level='exploration',
+    'C01': dict(mod='c01', state_measure='(outcome trap, faulted?, an error was handled?, number of device events (cap 12))', level='exploration',
                 rule=('scenario = reference-subset program (typed generator) x device script (response lines, keys, RNG values, '
                       'virtual clock with jumps) x 3 compiler configurations; the reference interpreter and the real machine '
                       'run the same script and the same fault plan (fault-free, then device failures addressed by (operation, '
@@ -80,7 +80,7 @@ CHECKS = {
                 assumptions=['the reference interpreter (simqb/ref.py, semantic decisions in DESIGN.md appendix A) is trusted',
                              'runs that leave the reference subset are counted as inconclusive, not compared',
                              'the virtual clock advances per low-level device call (event-driven)']),
-    'C10': dict(mod='c10', level='fault_enumeration',
+    'C10': dict(mod='c10', state_measure='(trap code, handler mode, operand excess at dispatch (cap 5), frame depth (cap 4), opcode that trapped) over dispatched traps', level='fault_enumeration',
                 rule=('scenario = reference-subset program with an armed handler (shapes: GOTO h + RESUME NEXT, GOTO h + repair + '
                       'RESUME, ON ERROR RESUME NEXT, handler that ENDs; optional later ON ERROR GOTO 0) and 1-3 planted run-time '
                       'errors (5 categories, depth 0-3, in nested blocks / multi-statement lines / GOSUB routines / procedures) x '
@@ -90,7 +90,7 @@ CHECKS = {
                       'actually handled and all configurations agreed with the reference'),
                 assumptions=['reference interpreter semantics of ON ERROR (DESIGN.md appendix A); errors in block headers under a handler are inconclusive',
                              'for an error inside a procedure the property only promises transfer to the handler; resumption inside the procedure follows the machine\'s design and is compared as such']),
-    'C13': dict(mod='c13', level='exploration',
+    'C13': dict(mod='c13', state_measure='(print kind, how the stop was reached, halted?)', level='exploration',
                 rule=('scenario = reference-subset program (-g, -O0..-O2) x stop point (statement, j-th arrival, reached by line '
                       'breakpoint + continue or by stepping; in main and in procedure frames; and after the program finished) x 1-5 '
                       'print expressions over names in scope (scalars, array elements, record fields, constants; arithmetic, '
@@ -101,7 +101,7 @@ CHECKS = {
                 assumptions=['virtual clock frozen (deltas 0) so that the inserted PRINT cannot change TIMER-dependent control flow',
                              'a location the program never assigned may be reported as having no value yet (the property speaks of already-assigned locations)',
                              'builtin and user function calls are not part of the generated print expressions']),
-    'C11': dict(mod='c11', level='exploration',
+    'C11': dict(mod='c11', state_measure='(statement kind or trap code, optimisation level, event kind)', level='exploration',
                 rule=('run-time half only. scenario = reference-subset program (-g, two of -O0..-O2) x device script x plan '
                       '(fault-free, then sampled device failures); the reference interpreter tells which statement issues each '
                       'device event / fails / executes; the debug map must name a record on that statement\'s line (and with its '
@@ -118,7 +118,8 @@ def check(prop, tier):
     if c is None:
         print(f'no check registered for {prop}')
         return 2
-    return harness.drive(prop, c['mod'], tier, c['level'], c['rule'], c['assumptions'])
+    return harness.drive(prop, c['mod'], tier, c['level'], c['rule'], c['assumptions'],
+                         state_measure=c.get('state_measure'))
 
 
 def replay_file(path):
